@@ -302,7 +302,7 @@ class Report(object):
         lines = []
         rc = 0
         for sig, (what, replay) in sorted(self.known_seen.items()):
-            lines.append('KNOWN-FINDING: property=%s %s (%s)' % (self.prop, sig, what))
+            lines.append('KNOWN-FINDING: property=%s %s (%s)' % (self.prop, sig, what if len(what) <= 400 else what[:400] + '...'))
         violations = 0
         if self.failures:
             f = self.failures[0]
